@@ -46,3 +46,31 @@ def fill(claim, na):
           "before the buffer. Not decided: the eventual-send timing inside one reactor turn.",
           "T1; T3; EventualQueue FIFO is trusted",
           "DESIGN.md 4/C18")
+    claim("C01",
+          "def-use / argument-plumbing rules over the syntax tree + Automat table rules + CFG handler rule + typestate reachability",
+          "Decides the structural lemmas the agreement clause rests on: to_bytes is NFC+UTF-8; the single SPAKE2 construction is "
+          "keyed by to_bytes(code parameter) with idSymmetric=to_bytes(appid); Code/Key/Boss hand the code on unchanged and "
+          "code-before-PAKE; the finish() result flows unmodified to Boss, Receive and the phase key; derive_key is HKDF with "
+          "the purpose as info, the front-ends pass to_bytes(purpose) and refuse without a key; the verifier is a fixed-purpose "
+          "derivation; nothing is delivered before a peer message decrypted and an undecryptable one leads to scared / "
+          "WrongPasswordError; in the product _SortedKey never sees a PAKE before the code. NOT decided (behavioural remainder): "
+          "that two SPAKE2 runs agree iff the passwords do, HKDF/ SecretBox strength.",
+          "T1, T2 (spake2, HKDF, SecretBox, unicodedata behave as documented), T3 for the typestate part",
+          "DESIGN.md 4/C01")
+    claim("C02",
+          "def-use / plumbing rules, Automat table + who-may-call rules, CFG guard-dominance, attribute write-discipline",
+          "Decides the binding lemmas: the phase key's purpose holds sha256(side) and sha256(phase) (strict encodings); receiver "
+          "keys on the labels received, sender on own side + the label it sends; one side per wormhole; own-side messages are "
+          "echoes that never reach Order/Receive (plain side comparison), only Mailbox feeds Order and only Order feeds Receive; "
+          "the dedup set is add-only and its membership test dominates the hand-over; undecryptable => scared; unknown phases are "
+          "only logged, versions only under the label 'version'. NOT decided: authenticity of SecretBox, SPAKE2 reflection rejection.",
+          "T1, T2", "DESIGN.md 4/C02")
+    claim("C03",
+          "attribute write-discipline (monotone counters, FIFO queues), CFG ordering / dominance rules on the delivery loop, table rules, typestate invariant",
+          "Decides the ordering/once-only lemmas: tx phase = counter read-then-incremented once per send; the application "
+          "receives only _rx_phases.pop(_next_rx_phase) under a membership test followed by +1 (and the counter moves only after a "
+          "delivery); Send/Order queues and the get_message() buffer are FIFO (append at tail, iterate/take from head, clear only "
+          "after the drain loop); un-echoed messages are re-sent on every (re)open in submission order and forgotten only on their "
+          "echo; a phase is accepted once; payloads pass the front-end unmodified; the mailbox is re-opened on each connection "
+          "(product invariant). NOT decided: the composed two-party trace equality (paper argument over these lemmas).",
+          "T1, T3, T4", "DESIGN.md 4/C03")
